@@ -28,6 +28,11 @@ MANIFEST = dict(
 genparams = sc.genparams
 
 
+def setup():
+    """./check --setup: build the race-detector variant of the harness ahead of the first run."""
+    sc.build_all(race=True)
+
+
 def conc_phase(ctx, racebin, rounds_per_variant, seed):
     failures, stats = [], {"rounds": 0, "ops": 0, "linearizable": 0, "no_verdict": 0, "races": 0, "fired": 0, "lock_violations": 0}
     for vi, variant in enumerate(["sd", "sc", "sh"]):
